@@ -7,7 +7,7 @@ PROPS["C18"] = P(
     "(number of shards, shard of every pair = top bits computed by shifting, per-shard multiset, union, shard_sizes vs model counts and vs yielded lengths, len). "
     "distinct_nontrivial = distinct (mode, bit triple, multiset class + plan, type combination) cells in which at least one pair was pushed",
     dict(builds=["DBG", "UBC"]),
-    dict(builds=["DBG", "UBC", "ASAN", "MIRI"], shards={"MIRI": 6, "ASAN": 3, "DBG": 4, "UBC": 3}),
+    dict(builds=["DBG", "UBC", "ASAN", "MIRI"], shards={"MIRI": 6, "ASAN": 4, "DBG": 3, "UBC": 3}),
     hang="violation",
     level_text="Exploration: the real online and offline signature stores are driven through every bit-triple class (split / equal / aggregate iterator branches) with skewed, boundary and "
                "chunk-size-aligned multisets and all signature/value type combinations; each of three iterations is compared pair by pair with the pushed vector. Debug build (overflow, "
